@@ -90,6 +90,7 @@ def outcomeStr : Outcome → String
   | .raised .ValueError => "ValueError"
   | .raised .ClassError => "ClassError"
   | .raised .FormatError => "FormatError"
+  | .raised .OutOfMemoryError => "OutOfMemoryError"
   | .rejected => "rejected"
   | .ub _ => "ub"
 
@@ -182,6 +183,7 @@ def ubStr : UB → String
   | .useAfterFree => "use-after-free"
   | .overlap => "overlap"
   | .outOfBounds => "out-of-bounds"
+  | .nullDeref => "null-deref"
 
 /-- `self` | `v<off>` with `off ≤ len` -/
 def parseSrc (t : String) (n : Nat) : Option Src :=
@@ -204,7 +206,8 @@ def aliasOp (w : World) (rest : List String) : IO World := do
     let mutating := what = "assign" || what = "concat" || what = "append" || what = "print" || what = "show"
     if what = "show" && st != "self" then bad; return w
     -- the aliased mutators on an empty text copy one NUL onto itself: undefined only on paper, not run
-    if mutating && x.isEmpty then bad; return w
+    -- (not `assign` with the target or a view at offset 0: `val is s->val`, the call returns at once — 744a45f)
+    if mutating && x.isEmpty && !(what = "assign" && src.off = 0) then bad; return w
     let posOk : Option Nat := match what, more with
       | "print", [pt] | "show", [pt] => (num pt).bind fun p => if p ≤ x.length && pt.length ≤ 8 then some p else none
       | "print", _ | "show", _ => none
@@ -234,9 +237,29 @@ def aliasOp (w : World) (rest : List String) : IO World := do
     | _, none => bad; return w
   | _ => bad; return w
 
+/-- `oom resize <T> <n>`: `resize(s, n)` on a fresh `s = new(String, $S(T))` whose `realloc` returns NULL (`resizeR … true`): the
+    outcome, and whether `s->val` is NULL afterwards -/
+def oomOp (w : World) (rest : List String) : IO World := do
+  match rest with
+  | ["resize", t, nt] =>
+    let some x := dehex t | do bad; return w
+    if x.length > 512 then bad; return w
+    let some n := num nt | do bad; return w
+    if nt.length > 7 then bad; return w
+    let s := (new P J (some x)).st
+    let r := resizeR P J s n true
+    match r.out with
+    | .ub why =>
+      IO.println "O oom resize ub"
+      IO.println s!"R oom resize model=ub:{ubStr why}"
+    | o => IO.println s!"O oom resize {outcomeStr o} val={if r.st.buf.isEmpty then "NULL" else if r.st == s then "kept" else "other"}"
+    return { w with nMut := w.nMut + 1 }
+  | _ => bad; return w
+
 def stepOp (w : World) (toks : List String) : IO World := do
   match toks with
   | "alias" :: rest => aliasOp w rest
+  | "oom" :: rest => oomOp w rest
   | op :: kt :: rest =>
     let some k := objIx kt | do bad; return w
     let live := w.get k
@@ -245,6 +268,11 @@ def stepOp (w : World) (toks : List String) : IO World := do
       let some x := dehex t | do bad; return w
       let r := new P J (some x)
       w.commit "new" k r.st "ok" r.safe x
+    | "newin", [t], none =>
+      -- a String inside an Array: `Array_Push` zeroes the slot and calls `assign(slot, obj)` — the same `String_Assign` on `val == NULL`
+      let some x := dehex t | do bad; return w
+      let r := new P J (some x)
+      w.commit "newin" k r.st "ok" r.safe x
     | "new0", [], none =>
       let r := new P J none
       w.commit "new0" k r.st "ok" r.safe []
@@ -277,6 +305,15 @@ def stepOp (w : World) (toks : List String) : IO World := do
       if j = k then bad; return w
       let r := concat P J s sj.abs
       w.commit op k r.st (outcomeStr r.out) r.safe (Spec.step (w.getSpec k) (.concat (w.getSpec j)))
+    | "assignself", [], some s =>
+      -- `assign(s, s)`: the model follows the source (`P.assignSelfReturns`); the harness is built with AddressSanitizer, whose realloc moves
+      let r := stepA P J true s (.assign .self)
+      match r.out with
+      | .ub why =>
+        IO.println s!"O assignself {k} ub"
+        IO.println s!"R assignself {k} model=ub:{ubStr why}"
+        return { w with nMut := w.nMut + 1 }
+      | o => w.commit op k r.st (outcomeStr o) r.safe (Spec.step (w.getSpec k) ((AOp.assign .self).absOp (w.getSpec k)))
     | "resize", [nt], some s =>
       let some n := num nt | do bad; return w
       if n > 1000000 then bad; return w
